@@ -26,26 +26,45 @@ namespace {
 std::vector<int> g_exec;          // per-test execution counter (this repetition)
 std::vector<int> g_exec_order;    // ids in order of execution (this repetition)
 
+// where a test fails (decoded per test; most tests fail nowhere).  The "C-style" places leave through the OUTERMOST jump buffer
+// of runOneTest (a long jump, no exception): what FAIL_TEXT_C / CHECK_C do in a TEST_GROUP constructor or destructor or in a plugin action.
+enum FailWhere { F_NOWHERE = 0, F_BODY_CPP, F_BODY_C, F_CONSTRUCTOR_C, F_DESTRUCTOR_C, F_PLUGIN_PRE_C, F_PLUGIN_POST_C, F_KINDS };
+std::vector<int> g_fail_where;    // per test id
+std::vector<int> g_attempts;      // per test: how often the plugin chain's pre action saw it start (this repetition)
+const TestTerminatorWithoutExceptions g_c_style_exit;
+
 class CountingUtest : public Utest {
 public:
     int id_;
     explicit CountingUtest(int id) : id_(id) {}
-    void testBody() CPPUTEST_OVERRIDE { g_exec[(size_t)id_]++; g_exec_order.push_back(id_); }
+    void testBody() CPPUTEST_OVERRIDE {
+        g_exec[(size_t)id_]++; g_exec_order.push_back(id_);
+        int w = g_fail_where[(size_t)id_];
+        if (w == F_BODY_CPP) UtestShell::getCurrent()->fail("planned failure in the body", "c02.cpp", (size_t)(100 + id_));
+        if (w == F_BODY_C) UtestShell::getCurrent()->fail("planned C-style failure in the body", "c02.cpp", (size_t)(100 + id_), g_c_style_exit);
+    }
 };
-class NormalShell : public UtestShell {
+template <class Base> class CountingShell : public Base {
 public:
-    int id_;
-    NormalShell(int id, const char* g, const char* n) : UtestShell(g, n, "c02.cpp", (size_t)(100 + id)), id_(id) {}
-    explicit NormalShell(int id) : UtestShell(), id_(id) {}   // named and registered by a TestInstaller, as the TEST macro does
-    Utest* createTest() CPPUTEST_OVERRIDE { return new CountingUtest(id_); }
+    int id_; TestResult* result_of_this_run_ = NULLPTR;
+    CountingShell(int id, const char* g, const char* n) : Base(g, n, "c02.cpp", (size_t)(100 + id)), id_(id) {}
+    explicit CountingShell(int id) : Base(), id_(id) {}   // named and registered by a TestInstaller, as the TEST macro does
+    Utest* createTest() CPPUTEST_OVERRIDE {               // = the TEST_GROUP constructor
+        result_of_this_run_ = this->getTestResult();
+        if (g_fail_where[(size_t)id_] == F_CONSTRUCTOR_C) this->fail("planned C-style failure in the fixture constructor", "c02.cpp", (size_t)(100 + id_), g_c_style_exit);
+        return new CountingUtest(id_);
+    }
+    void destroyTest(Utest* test) CPPUTEST_OVERRIDE {     // = the TEST_GROUP destructor
+        delete test;
+        if (g_fail_where[(size_t)id_] == F_DESTRUCTOR_C && result_of_this_run_ != NULLPTR) {
+            TestResult* r = result_of_this_run_; result_of_this_run_ = NULLPTR;
+            r->addFailure(TestFailure(this, "c02.cpp", (size_t)(100 + id_), "planned C-style failure in the fixture destructor"));
+            g_c_style_exit.exitCurrentTest();
+        }
+    }
 };
-class IgnoredShell : public IgnoredUtestShell {
-public:
-    int id_;
-    IgnoredShell(int id, const char* g, const char* n) : IgnoredUtestShell(g, n, "c02.cpp", (size_t)(100 + id)), id_(id) {}
-    explicit IgnoredShell(int id) : IgnoredUtestShell(), id_(id) {}
-    Utest* createTest() CPPUTEST_OVERRIDE { return new CountingUtest(id_); }
-};
+typedef CountingShell<UtestShell> NormalShell;
+typedef CountingShell<IgnoredUtestShell> IgnoredShell;
 
 // ---------------------------------------------------------------- recording output
 struct Ev { char kind; int id; };   // S tests started, E tests ended, G group started(first test), g group ended, T test started(test), t test ended
@@ -71,6 +90,22 @@ std::string render(const std::vector<Ev>& ev) {
     for (auto& e : ev) { o.push_back(e.kind); if (e.id >= 0 || e.kind == 'T' || e.kind == 'G') o += sfmt("%d", e.id); o.push_back(' '); }
     return o;
 }
+
+// ---------------------------------------------------------------- a plugin that sees every test start, and fails where planned
+class AttemptPlugin : public TestPlugin {
+public:
+    AttemptPlugin() : TestPlugin("C02AttemptPlugin") {}
+    static int idOf(UtestShell& s) { auto it = g_ids->find(&s); return it == g_ids->end() ? -1 : it->second; }
+    void preTestAction(UtestShell& test, TestResult& result) CPPUTEST_OVERRIDE {
+        int id = idOf(test); if (id < 0) return;
+        g_attempts[(size_t)id]++;
+        if (g_fail_where[(size_t)id] == F_PLUGIN_PRE_C) { result.addFailure(TestFailure(&test, "c02.cpp", (size_t)(100 + id), "planned C-style failure in a plugin pre action")); g_c_style_exit.exitCurrentTest(); }
+    }
+    void postTestAction(UtestShell& test, TestResult& result) CPPUTEST_OVERRIDE {
+        int id = idOf(test); if (id < 0) return;
+        if (g_fail_where[(size_t)id] == F_PLUGIN_POST_C) { result.addFailure(TestFailure(&test, "c02.cpp", (size_t)(100 + id), "planned C-style failure in a plugin post action")); g_c_style_exit.exitCurrentTest(); }
+    }
+};
 
 // ---------------------------------------------------------------- separate-process seam (runs in this process, counts the calls)
 int g_sep_calls;
@@ -104,7 +139,7 @@ void (*g_orig_srand)(unsigned int);
 int (*g_orig_rand)(void);
 
 // ---------------------------------------------------------------- the case
-struct TestSpec { bool ignored; std::string group, name; };
+struct TestSpec { bool ignored; std::string group, name; int fail_where = F_NOWHERE; };
 struct FilterSpec { std::string text; bool strict, inverted; };
 
 const char ALPHA[] = "aAbB";
@@ -283,6 +318,12 @@ int run_case(Reader& r, bool& nontrivial, std::string& desc) {
     bool through_runner = ((extras >> 2) & 3u) == 1;  // repetitions, -b, -s<seed>, -ri, -p and the filters go through CommandLineTestRunner
     if (through_runner) { for (auto& cs : changes) cs.clear(); n_changes = 0; tests.resize(n); if (ri_mode >= 2) ri_mode = 0; if (do_shuffle) seed = seed % 99999 + 1; }
     size_t total = tests.size();
+    // trailing: up to 4 tests fail somewhere (old inputs: nobody fails)
+    size_t nfail = 0; if (total) { unsigned k = r.below(8); nfail = k < 4 ? 0 : k - 3; }   // half of the cases: nobody fails
+    for (size_t k = 0; k < nfail; k++) { size_t i = r.below((uint32_t)total); tests[i].fail_where = 1 + (int)r.below(F_KINDS - 1); }
+    g_fail_where.assign(total, F_NOWHERE);
+    for (size_t i = 0; i < total; i++) g_fail_where[i] = tests[i].fail_where;
+    auto body_runs = [&](size_t i) { return tests[i].fail_where != F_CONSTRUCTOR_C && tests[i].fail_where != F_PLUGIN_PRE_C; };   // the body is not reached when the test is aborted before it
 
     // ---------------- model of the selection for the configuration in force (initially; re-evaluated per repetition)
     bool run_ignored = ri_mode == 1;
@@ -326,6 +367,9 @@ int run_case(Reader& r, bool& nontrivial, std::string& desc) {
       if (has_ign) verif::cls(run_ignored ? "ignored-tests-run" : "ignored-tests-skipped");
       if (has_ign && late_ri) verif::cls("between-runs:run-ignored-switched-on-with-ignored-tests"); }
     { static const char* rn[] = {"", "reps=1", "reps=2", "reps=3"}; verif::cls(rn[reps]); }
+    { static const char* fn[] = {"", "fails:body-c++", "fails:body-c-longjmp", "fails:fixture-constructor-c", "fails:fixture-destructor-c", "fails:plugin-pre-action-c", "fails:plugin-post-action-c"};
+      bool any = false; for (size_t i = 0; i < total; i++) if (tests[i].fail_where) { verif::cls(fn[tests[i].fail_where]); any = true; }
+      if (any) verif::cls("fails:some-test"); }
     if (via_installer) verif::cls("registered:through-TestInstaller");
     if (readd_last && n > 0) verif::cls("registered:last-one-undone-and-registered-again");
     if (second_registry) verif::cls("registered:same-shells-in-a-second-registry");
@@ -338,7 +382,8 @@ int run_case(Reader& r, bool& nontrivial, std::string& desc) {
         if (c.kind != CH_NONE) verif::cls(cn[c.kind]);
     }
 
-    auto show_test = [&](size_t i) { return sfmt("%s%s.%s", tests[i].ignored ? "I:" : "", tests[i].group.c_str(), tests[i].name.c_str()); };
+    auto show_test = [&](size_t i) { static const char* fw[] = {"", "!body", "!bodyC", "!ctorC", "!dtorC", "!preC", "!postC"};
+                                     return sfmt("%s%s.%s%s", tests[i].ignored ? "I:" : "", tests[i].group.c_str(), tests[i].name.c_str(), fw[tests[i].fail_where]); };
     desc = sfmt("n=%zu [", n);
     for (size_t i = 0; i < n; i++) desc += show_test(i) + " ";
     desc += "] g{";
@@ -412,6 +457,8 @@ int run_case(Reader& r, bool& nontrivial, std::string& desc) {
     };
     auto install = [&](int which) { if (which == 0) R->setGroupFilters(heads[0]); else R->setNameFilters(heads[1]); };
     for (int which = 0; which < 2; which++) { for (auto& f : filters[which]) heads[which] = make_filter(f)->add(heads[which]); install(which); }
+    AttemptPlugin attempt_plugin;               // sees every test start; fails where a plugin failure is planned
+    R->installPlugin(&attempt_plugin);
     bool sep_on = false;
     if (!through_runner) {
         if (run_ignored) R->setRunIgnored();
@@ -458,6 +505,7 @@ int run_case(Reader& r, bool& nontrivial, std::string& desc) {
         R->setCurrentRegistry(R);
         for (int id : old) register_test((size_t)id);          // every shell still carries the next pointer of the first registry's list
         install(0); install(1);                                 // the configuration in force goes with the tests
+        R->installPlugin(&attempt_plugin);
         if (run_ignored && !through_runner) R->setRunIgnored();
         if (sep_on) R->setRunTestsInSeperateProcess();
         runs_on_current_registry = 0;
@@ -484,7 +532,7 @@ int run_case(Reader& r, bool& nontrivial, std::string& desc) {
                                      rep + 1, show_ids(order).c_str(), show_ids(runner_expected_order).c_str(), (int)do_reverse, desc.c_str());
         }
         evaluate();
-        g_exec.assign(total, 0); g_exec_order.clear(); g_sep_calls = 0;
+        g_exec.assign(total, 0); g_exec_order.clear(); g_sep_calls = 0; g_attempts.assign(total, 0);
         ev_start = g_runner_events.size();
         return 0;
     };
@@ -505,8 +553,12 @@ int run_case(Reader& r, bool& nontrivial, std::string& desc) {
 
         // execution counters
         for (size_t i = 0; i < total; i++)
-            V_CHECK(g_exec[i] == (runs[i] ? 1 : 0), "C02:execution-count", "%s: test #%zu %s executed %d times, expected %d (selected=%d) [%s]",
-                    cfg().c_str(), i, show_test(i).c_str(), g_exec[i], runs[i] ? 1 : 0, (int)selected[i], desc.c_str());
+            V_CHECK(g_exec[i] == (runs[i] && body_runs(i) ? 1 : 0), "C02:execution-count", "%s: test #%zu %s executed %d times, expected %d (selected=%d) [%s]",
+                    cfg().c_str(), i, show_test(i).c_str(), g_exec[i], runs[i] && body_runs(i) ? 1 : 0, (int)selected[i], desc.c_str());
+        // a test is "run" from the moment the plugin chain sees it start, whether or not it gets as far as its body
+        for (size_t i = 0; i < total; i++)
+            V_CHECK(g_attempts[i] == (runs[i] ? 1 : 0), "C02:run-attempts", "%s: test #%zu %s was started %d times, expected %d [%s]",
+                    cfg().c_str(), i, show_test(i).c_str(), g_attempts[i], runs[i] ? 1 : 0, desc.c_str());
         // accounting identity and each counter
         V_CHECK(tr.getTestCount() == np, "C02:count-tests", "%s: test count %zu, registered %zu [%s]", cfg().c_str(), tr.getTestCount(), np, desc.c_str());
         V_CHECK(tr.getRunCount() + tr.getIgnoredCount() + tr.getFilteredOutCount() == np, "C02:count-identity",
@@ -514,7 +566,8 @@ int run_case(Reader& r, bool& nontrivial, std::string& desc) {
         V_CHECK(tr.getRunCount() == n_run, "C02:count-run", "%s: run count %zu, expected %zu [%s]", cfg().c_str(), tr.getRunCount(), n_run, desc.c_str());
         V_CHECK(tr.getIgnoredCount() == n_ign, "C02:count-ignored", "%s: ignored count %zu, expected %zu [%s]", cfg().c_str(), tr.getIgnoredCount(), n_ign, desc.c_str());
         V_CHECK(tr.getFilteredOutCount() == np - n_sel, "C02:count-filtered-out", "%s: filtered-out count %zu, expected %zu [%s]", cfg().c_str(), tr.getFilteredOutCount(), np - n_sel, desc.c_str());
-        V_CHECK(tr.getFailureCount() == 0, "C02:unexpected-failure", "repetition %zu: %zu failures from tests that check nothing", rep + 1, tr.getFailureCount());
+        { size_t want_failures = 0; for (size_t i = 0; i < total; i++) if (runs[i] && tests[i].fail_where != F_NOWHERE) want_failures++;
+          V_CHECK(tr.getFailureCount() == want_failures, "C02:failure-count", "%s: %zu failures, %zu tests that run are planned to fail (once each) [%s]", cfg().c_str(), tr.getFailureCount(), want_failures, desc.c_str()); }
 
         // expected callback stream and execution order, from the actual order and the model
         std::vector<Ev> want; std::vector<int> want_exec;
@@ -527,7 +580,7 @@ int run_case(Reader& r, bool& nontrivial, std::string& desc) {
             if (first) { want.push_back({'G', order[i]}); group_runs++; }
             if (!first) adjacent_equal = true;
             if (selected[(size_t)order[i]]) { want.push_back({'T', order[i]}); want.push_back({'t', -1}); }
-            if (runs[(size_t)order[i]]) want_exec.push_back(order[i]);
+            if (runs[(size_t)order[i]] && body_runs((size_t)order[i])) want_exec.push_back(order[i]);
             if (last) want.push_back({'g', -1});
             if (first) for (size_t j = 0; j + 1 < i; j++) if (tests[(size_t)order[j]].group == t.group) nonadjacent_repeat = true;
         }
